@@ -1,9 +1,11 @@
 (* C14 (SQLite part) — a table prefix renames tables and nothing else, on the level of the SQLite generator.
-   Pinned statements only.  PARTIAL: whole-call equivariance of gen is proved for the table-free actions and the index
-   actions; for the rebuilding builders only the name-bearing building blocks are proved, the whole calls are checked by
-   evaluation (prefix_agrees) on every generated case. *)
+   Pinned statements only.  The whole-plan statement gen_plan_prefix_equivariant holds for every action kind under the
+   decidable side conditions of prefix_plan_ok (no user CHECK name that looks like a derived enum CHECK name, no created
+   table named *_temp, VV.M1's side condition of apply_equivariant) and a prefix without a dot; the same statement is also
+   evaluated (prefix_agrees) on every generated case. *)
 From VV.M1 Require Import Validate Oracles.
-From VV.SQLITE Require Import Corr Known WitnessP Prefix NamesP.
+From VV.M1 Require Import PrefixP PrefixApplyP.
+From VV.SQLITE Require Import Corr Known WitnessP Prefix NamesP PrefixGenP.
 
 Theorem C14_sqlite_index_name_prefix : forall p t cols key,
   rename_index_name p (build_index_name t cols key) = build_index_name (p +++ t) cols key
@@ -53,6 +55,35 @@ Check C14_sqlite_gen_prefix_equivariant_partial : forall p chk s P a,
   end ->
   gen (literal_schema p s) (map (literal_constraint p) P) (literal_action p a)
   = match gen s P a with GOk l => GOk (map (rename_stmt p chk) l) | o => o end.
+
+
+(* one call of gen, every action kind *)
+Theorem C14_sqlite_gen_literal : forall p s P a, contains_char "."%char p = false -> prefix_step_ok p s a = true ->
+  gen (literal_schema p s) (map (literal_constraint p) P) (literal_action p a)
+  = lift_gen p (gen s P a).     (* lift_gen p (GOk l) = GOk (map (rename_stmt p (chk_by_columns p)) l), errors and panics unchanged *)
+Proof. intros p s P a Hp H. exact (gen_literal p s P a Hp H). Qed.
+Print Assumptions C14_sqlite_gen_literal.
+Check C14_sqlite_gen_literal : forall p s P a, contains_char "."%char p = false -> prefix_step_ok p s a = true ->
+  gen (literal_schema p s) (map (literal_constraint p) P) (literal_action p a)
+  = lift_gen p (gen s P a).     (* lift_gen p (GOk l) = GOk (map (rename_stmt p (chk_by_columns p)) l), errors and panics unchanged *)
+
+(* the whole plan: evolving schema, pending constraints, ignored apply errors, dropped empty statements *)
+Theorem C14_sqlite_gen_plan_prefix_equivariant : forall p s acts, contains_char "."%char p = false -> prefix_plan_ok p s acts = true ->
+  gen_plan (literal_schema p s) (map (literal_action p) acts)
+  = lift_plan p (gen_plan s acts).   (* lift_plan p (Ok ls) = Ok (map (map (rename_stmt p (chk_by_columns p))) ls), Err e unchanged *)
+Proof. intros p s acts Hp H. exact (gen_plan_prefix_equivariant p s acts Hp H). Qed.
+Print Assumptions C14_sqlite_gen_plan_prefix_equivariant.
+Check C14_sqlite_gen_plan_prefix_equivariant : forall p s acts, contains_char "."%char p = false -> prefix_plan_ok p s acts = true ->
+  gen_plan (literal_schema p s) (map (literal_action p) acts)
+  = lift_plan p (gen_plan s acts).   (* lift_plan p (Ok ls) = Ok (map (map (rename_stmt p (chk_by_columns p))) ls), Err e unchanged *)
+
+Example C14_sqlite_lifts_unfold : forall p l ls e,
+  lift_gen p (GOk l) = GOk (map (rename_stmt p (chk_by_columns p)) l)
+  /\ lift_plan p (Ok ls) = Ok (map (map (rename_stmt p (chk_by_columns p))) ls) /\ lift_plan p (Err e) = Err e.
+Proof. intros. repeat split. Qed.
+Example C14_sqlite_hyp_satisfiable :
+  prefix_plan_ok "app_" eq_demo_base eq_demo_plan = true /\ (exists ls, gen_plan eq_demo_base eq_demo_plan = Ok ls).
+Proof. exact eq_demo_ok. Qed.
 
 (* non-vacuity / the whole-plan statement on a plan with rebuilds, an enum CHECK and a foreign key *)
 Example C14_sqlite_prefix_agrees_somewhere :
